@@ -677,8 +677,6 @@ def main():
         thorough_info = run_thorough(prop, results, a.repo, seed)
         for l in thorough_info.get("lines", []):
             lines_out.append(l)
-        if thorough_info.get("unstable"):
-            rc = 2
     wall = time.time() - t0
     write_evidence(prop, a.tier, seed, results, obligations, n_ob, n_failed, known_hits, violations, undecided, canary_total, vacuous, wall, mine, thorough_info)
     for l in lines_out:
@@ -690,7 +688,8 @@ def main():
 def run_thorough(prop, results, repo, seed):
     """thorough tier (only after the quick verdict is a pass):
     (1) proof stability: every unit is verified again with two other Z3 random seeds and a 4x resource limit is NOT given -- an obligation that
-        only holds for one seed is reported (UNDECIDED, exit 2), never as a violation;
+        only holds for one seed is reported as a NOTE and recorded in the evidence (coverage.thorough.unstable); it never changes the exit code
+        (the default-seed proof stands) and is never a violation;
     (2) contract strength: a seeded sample of syntactic mutants of the real functions that carry this property (one per function, at most 40 per
         unit) is run through the same pipeline; killed / undecided / survived are recorded in the evidence, survivors are listed as NOTE lines
         (an equivalent mutant or a gap in the contracts; they do not change the exit code)."""
@@ -712,7 +711,9 @@ def run_thorough(prop, results, repo, seed):
             if bad:
                 info["unstable"].append("%s (z3 seed %d): %s" % (r.unit, zs, "; ".join(bad[:3])))
     for u in info["unstable"]:
-        info["lines"].append("UNDECIDED property=%s reason=proof not stable under another solver seed: %s" % (prop, u[:300]))
+        # the default-seed run discharged every obligation, so the property is decided; a resource limit or an incomplete proof search under
+        # another seed says the proof is brittle, not that it is wrong: reported, recorded in the evidence, exit code unchanged
+        info["lines"].append("NOTE property=%s proof not stable under another solver seed: %s" % (prop, u[:300]))
     # (2) mutation sample
     try:
         import mutate
